@@ -160,5 +160,12 @@ theorem intCast_injOn (n : Nat) (hn : n ≤ q) (a b : Int) (ha : 0 ≤ a ∧ a <
   have hq : (n : Int) ≤ q := by exact_mod_cast hn
   rwa [Int.emod_eq_of_lt ha.1 (by omega), Int.emod_eq_of_lt hb.1 (by omega)] at h2
 
+/-- `1, …, n` are non-zero modulo a prime `q > n` -/
+theorem natCast_ne_zero (k : Nat) (hk : 0 < k) (hkq : k < q) : ((k : Nat) : Zq q) ≠ 0 := by
+  intro h0
+  have h1 : toZMod ((k : Nat) : Zq q) = 0 := by rw [h0]; exact toZMod_zero
+  rw [toZMod_natCast, ZMod.natCast_eq_zero_iff] at h1
+  exact absurd (Nat.le_of_dvd hk h1) (by omega)
+
 end
 end Dos.Zq
